@@ -29,6 +29,10 @@ def main():
     try:
         mod = importlib.import_module("mxv.checks." + a.prop.lower())
         mod.run(ck)
+        # vacuity gate: every seeded model bug of the specifications this check model-checked must be found
+        from . import controls as _controls
+        done = set(c["module"] for c in ck.notes.get("negative_controls", []))
+        ck.controls(*[m for m in sorted(set(r["module"] for r in ck.mc_runs)) if m in _controls.CONTROLS and m not in done])
         rc = ck.finish()
     except BaseException as e:
         traceback.print_exc()
